@@ -144,7 +144,9 @@ int read_amiga(const char *filename, Memory *memory)
         running = 0;
         break;
       default:
-        if (length == 0)
+        // A skip of zero or a negative number of bytes would read the
+        // same hunk again forever.
+        if (length <= 0)
         {
           fclose(in);
           return -1;
